@@ -1,0 +1,6 @@
+//go:build !verif
+
+package monitor
+
+// verifPoint is a no-op unless built with the verif tag (see verif_point_on.go).
+func verifPoint(name string, args ...interface{}) {}
